@@ -30,6 +30,10 @@
 (*              the file system runs out of room ("noroom"), writes go on  *)
 (*              (the first one rolls), room comes back ("room") after at   *)
 (*              least two of them                                          *)
+(*  "logblind"  the log machine: the current file is taken to its limit,   *)
+(*              an entry of the directory becomes un-stat()able ("lblind"),*)
+(*              writes go on (the first one rolls), it heals ("lunblind")  *)
+(*              after at least two of them                                 *)
 (*  "dumpblind" the dump machine: rule-set changes with the directory      *)
 (*              listing failing ("blind") and working again ("unblind")    *)
 (*  "shortruns" the log machine doing (one write of one unit, restart)     *)
@@ -48,6 +52,7 @@ GenMachine == CASE GenMode = "evstop" -> "event"
                 [] GenMode = "evfail" -> "event"
                 [] GenMode = "shortruns" -> "log"
                 [] GenMode = "noroom" -> "log"
+                [] GenMode = "logblind" -> "log"
                 [] GenMode = "dumpblind" -> "dumps"
                 [] OTHER -> GenMode
 GenDepth == IF "GEN_DEPTH" \in DOMAIN IOEnv THEN atoi(IOEnv.GEN_DEPTH) ELSE 12
@@ -56,7 +61,7 @@ GenDepth == IF "GEN_DEPTH" \in DOMAIN IOEnv THEN atoi(IOEnv.GEN_DEPTH) ELSE 12
 \* refused: the write is expected to be refused (roll needed while the rename fails)
 After(o, k, jj) == [op |-> o, n |-> k, j |-> jj, arch |-> arch', cur |-> cur', ev |-> evFiles', tmp |-> evTmp',
                 q |-> evQueue', wrote |-> IF evFiles' > evFiles THEN evQueue ELSE 0, dumps |-> dumps',
-                refused |-> (o = "write" /\ ((ShouldRoll /\ rollFails) \/ noRoom)), noroom |-> noRoom',
+                refused |-> (o = "write" /\ ((ShouldRoll /\ rollFails) \/ noRoom)), noroom |-> noRoom', lblind |-> logBlind',
                 blind |-> listFails', pin |-> rollFails', run |-> evRun']
 Log(o, k) == hist' = Append(hist, After(o, k, 0))
 LogJ(o, k, jj) == hist' = Append(hist, After(o, k, jj))
@@ -64,7 +69,7 @@ LogJ(o, k, jj) == hist' = Append(hist, After(o, k, jj))
 GInit == /\ Init
          /\ (GenMode = "shortruns" => logLegal)
          /\ hist = << [op |-> "init", n |-> 0, j |-> 0, arch |-> arch, cur |-> cur, ev |-> evFiles, tmp |-> evTmp, q |-> 0,
-                       wrote |-> 0, dumps |-> dumps, refused |-> FALSE, noroom |-> FALSE, blind |-> FALSE, pin |-> FALSE, run |-> TRUE] >>
+                       wrote |-> 0, dumps |-> dumps, refused |-> FALSE, noroom |-> FALSE, lblind |-> FALSE, blind |-> FALSE, pin |-> FALSE, run |-> TRUE] >>
 
 Unpinned == \E i \in DOMAIN hist : hist[i].op = "unpin"
 Killed == \E i \in DOMAIN hist : hist[i].op = "kill"
@@ -103,6 +108,12 @@ Allowed(o) ==
            [] o = "room" -> Len(hist) >= 3 /\ hist[Len(hist)].op = "write" /\ hist[Len(hist) - 1].op = "write"
            [] o = "restart" -> noRoom
            [] OTHER -> FALSE
+    [] GenMode = "logblind" ->
+         CASE o = "write" -> TRUE
+           [] o = "lblind" -> cur >= Limit
+           [] o = "lunblind" -> Len(hist) >= 3 /\ hist[Len(hist)].op = "write" /\ hist[Len(hist) - 1].op = "write"
+           [] o = "restart" -> logBlind
+           [] OTHER -> FALSE
     [] GenMode = "dumpblind" ->
          CASE o = "dump" -> TRUE
            [] o = "blind" -> TRUE
@@ -112,7 +123,7 @@ Allowed(o) ==
          CASE o = "write" -> hist[Len(hist)].op # "write"
            [] o = "restart" -> hist[Len(hist)].op = "write"
            [] OTHER -> FALSE
-    [] OTHER -> o \notin {"kill", "noroom", "blind"}                    \* (kills are replayed under strace: kept to the directed mode)
+    [] OTHER -> o \notin {"kill", "noroom", "blind", "lblind"}                    \* (kills are replayed under strace: kept to the directed mode)
 
 GNext ==
   /\ Len(hist) <= GenDepth
@@ -124,6 +135,8 @@ GNext ==
      \/ \E jj \in 0..(PreArch + 2) : Allowed("kill") /\ LogKilledInRoll(jj) /\ LogJ("kill", 1 + (jj % MaxWrite), jj)
      \/ Allowed("noroom") /\ LogNoRoomOn /\ Log("noroom", 0)
      \/ Allowed("room") /\ LogNoRoomOff /\ Log("room", 0)
+     \/ Allowed("lblind") /\ LogListingBreaks /\ Log("lblind", 0)
+     \/ Allowed("lunblind") /\ LogListingHeals /\ Log("lunblind", 0)
      \/ Allowed("blind") /\ DumpListingBreaks /\ Log("blind", 0)
      \/ Allowed("unblind") /\ DumpListingHeals /\ Log("unblind", 0)
      \/ Allowed("pin") /\ LogFaultOn /\ Log("pin", 0)
